@@ -52,7 +52,7 @@ contract(f"{SGN}:SignService.sign_other", props=["C05"], shapes={"self": SVC, "r
              "generic_profile_signs_with_the_digest": _SD + "['signer'][0] == 'digest' and " + _SD + "['signer'][1] == ghost('signed_with')[0][0].as_hashedid8()",
              "generic_header_has_exactly_psid_and_generation_time": "header_keys(" + _HI + ") == ['generationTime', 'psid']"}),
          cover=["True"], **S)
-contract(f"{SGN}:SignService.sign_cam", props=["C05"], shapes={"self": SVC, "request": SRQ}, may_raise=["RuntimeError"],
+contract(f"{SGN}:SignService.sign_cam", props=["C05"], bound="0..2 pending HashedId3 entries per list", shapes={"self": SVC, "request": SRQ}, may_raise=["RuntimeError"],
          inline=[f"{SGN}:CooperativeAwarenessMessageSecurityHandler.set_up_signer"],
          modifies=["self.requested_ats", "self.cam_handler.last_signer_full_certificate_time", "self.cam_handler.requested_own_certificate"],
          ensures=dict(_COMMON, **{
@@ -64,13 +64,13 @@ contract(f"{SGN}:SignService.sign_cam", props=["C05"], shapes={"self": SVC, "req
          cover=[_SD + "['signer'][0] == 'certificate'", _SD + "['signer'][0] == 'digest'", "'inlineP2pcdRequest' in " + _HI, "'requestedCertificate' in " + _HI], **S)
 
 _FLAG = "self.cam_handler.requested_own_certificate"
-contract(f"{SGN}:SignService.notify_unknown_at", props=["C05"], shapes={"self": SVC, "hashedid8": T.bytes_n(8)},
+contract(f"{SGN}:SignService.notify_unknown_at", props=["C05"], bound="0..2 pending HashedId3 entries per list", shapes={"self": SVC, "hashedid8": T.bytes_n(8)},
          modifies=["self.unknown_ats", _FLAG],
          ensures={"own_certificate_will_be_included_in_the_next_cam": _FLAG,
                   "the_unknown_ticket_is_requested_by_its_hashedid3": "hashedid8[-3:] in self.unknown_ats",
                   "pending_requests_are_kept_and_not_duplicated": "implies(old(len(self.unknown_ats)) > 0, self.unknown_ats[0] == old(self.unknown_ats[0])) and implies(old(len(self.unknown_ats)) > 1, self.unknown_ats[1] == old(self.unknown_ats[1])) and len(self.unknown_ats) == old(len(self.unknown_ats)) + (0 if old(hashedid8[-3:] in self.unknown_ats) else 1)"},
          field_shapes={_FLAG: T.bool}, **S)
-contract(f"{SGN}:SignService.notify_inline_p2pcd_request", props=["C05"], shapes={"self": SVC, "request_list": T.oneof(T.list(), T.list(B3), T.list(B3, B3))},
+contract(f"{SGN}:SignService.notify_inline_p2pcd_request", props=["C05"], bound="0..2 pending HashedId3 entries per list", shapes={"self": SVC, "request_list": T.oneof(T.list(), T.list(B3), T.list(B3, B3))},
          modifies=["self.requested_ats", _FLAG], field_shapes={_FLAG: T.bool},
          loops={"for#0": {"invariant": [f"implies(old({_FLAG}), {_FLAG})", "len(self.requested_ats) == old(len(self.requested_ats))"], "elem": AT, "modifies": [_FLAG]}},
          ensures={"a_pending_inclusion_request_is_never_withdrawn": f"implies(old({_FLAG}), {_FLAG})",
